@@ -648,11 +648,14 @@ impl<R: BufRead + Seek> WebPDecoder<R> {
             if self.has_alpha() {
                 frame.fill_rgba(buf);
 
-                let range = self
-                    .chunks
-                    .get(&WebPRiffChunk::ALPH)
-                    .ok_or(DecodingError::ChunkMissing)?
-                    .clone();
+                let Some(range) = self.chunks.get(&WebPRiffChunk::ALPH).cloned() else {
+                    // The alpha flag of the VP8X header is only a hint: without an ALPH chunk
+                    // the image is fully opaque.
+                    for pixel in buf.chunks_exact_mut(4) {
+                        pixel[3] = 255;
+                    }
+                    return Ok(());
+                };
                 let alpha_chunk = read_alpha_chunk(
                     &mut range_reader(&mut self.r, range)?,
                     self.width as u16,
